@@ -1711,6 +1711,11 @@ def csum_dom(chk, program, rule='CSUM-DOM'):
                         seen.add(v); stack.append(v)
             if nid not in seen:
                 okd = True
+    if not tests or not calls:
+        # neither interpretable nor of the shape the graph reading knows (the comparison or the hand-over lives in a helper): no verdict
+        chk.unknown(rule, 'decode_usb::checksum-before-decode', 'decode_usb is not interpretable and holds no direct comparison of calculate_canbus_checksum(packet) with packet[19] '
+                    'on the way to self._decode', D, dec.lineno)
+        return
     chk.check(okd, rule, 'decode_usb::checksum-before-decode', file=D, line=dec.lineno, func='decode_usb',
               expected='_decode is reachable only through the `computed checksum == stored byte` edge', found='dominated' if okd else 'a packet with a wrong checksum can reach _decode')
 
